@@ -103,6 +103,22 @@ func PurgeBuildReverseIndex(stores context2.Stores, opts ...PurgeOption) (*Purge
 		)
 	}
 
+	if !options.resume {
+		// Record the creation time of this index at once, as a chunk without any key (chunk 0). Blobs written after
+		// this time are spared by the deletion of unused blobs. Should the job be interrupted before its first chunk
+		// of keys is uploaded, resuming it still finds the time it was started at: otherwise the resumed index would
+		// be dated later, and blobs uploaded in between by a bundle not yet committed when metadata is scanned again
+		// would be neither indexed nor more recent than the index.
+		if err = backoff.Retry(func() error {
+			return indexStore.Put(ctx, model.ReverseIndexFile(0),
+				strings.NewReader(indexTime.Format(layout)+"\n"), storage.OverWrite)
+		},
+			backoff.WithContext(defaultBackoff(), ctx),
+		); err != nil {
+			return nil, fmt.Errorf("cannot record the creation time of the index: %w", err)
+		}
+	}
+
 	contextStores := []context2.Stores{stores}
 	// include extra context stores to scan additional metadata
 	contextStores = append(contextStores, options.extraStores...)
